@@ -108,9 +108,12 @@ class Sim:
         self.held = []
         self.deleted = set()     # deleted by the program
         self.cov = dict(owner_first=0, owned_first=0, reg_path=0, sweeps=0, swept=0, thr=0, cascade=0, maxdepth=0,
-                        dtor_allocs=0, nested=0, alloc_route=0, dealloc_route=0)
+                        dtor_allocs=0, nested=0, alloc_route=0, dealloc_route=0,
+                        mark_aborts=0, stale_swept=0, null_dels=0, null_dels_in_sweep=0)
         self.depth = 0
         self.qchildren = {}      # id of a kind-q object -> [(child id, arena slot)]: what its destructor allocates
+        self.nulldel = set()     # objects whose destructor also does del(NULL)
+        self.stale = set()       # mark bits an abandoned mark phase left set (read by nothing since fix d8f0c4f: coverage only)
         self.in_teardown = False
         # known-finding territory met while simulating (KF-C06-dtor-alloc, F23): the generator discards such histories
         self.kf = dict(clobber=0, late_child=0, stopped_child=0)
@@ -122,7 +125,15 @@ class Sim:
         for cid, cslot in self.qchildren.get(a, []): self.child_new(cid, cslot)
         x = self.owns.get(a)
         if x is not None: self.gc_rem(x, True)
+        if a in self.nulldel: self.gc_rem_null(True)
         self.depth -= 1
+    def gc_rem_null(self, nested=False):
+        """GC_Rem(gc, NULL): GC_Rem_Ptr returns at once (fix d3e4e44); GC_Resize_Less and the new mitems still happen"""
+        if not self.running: return
+        self.cov['null_dels'] += 1
+        if nested and any(x is None for x in self.pending): self.cov['null_dels_in_sweep'] += 1   # a cleared slot was there to match
+        if self.lay: self.lay.resize_less()
+        self.mitems = thr(len(self.reg))
     def child_new(self, cid, cslot):
         """new(Probe) issued by a destructor: GC_Set on the same collector, possibly a nested collection"""
         self.kind[cid] = 'p'; self.how[cid] = 's'; self.slot[cid] = cslot
@@ -153,6 +164,9 @@ class Sim:
     def sweep(self, marked):
         """returns the pending order"""
         marked = set(marked)
+        # (bits left by an abandoned mark phase are cleared before any sweep reads them: GC_Unmark, fix d8f0c4f)
+        self.cov['stale_swept'] += sum(1 for x in self.stale if x in self.reg and not self.reg[x] and x not in marked)
+        self.stale = set()
         if self.lay: order = self.lay.sweep(marked)
         else: order = sorted(x for x, r in self.reg.items() if not r and x not in marked)
         for x in order: del self.reg[x]
@@ -244,6 +258,17 @@ class Sim:
     def gc(self):
         order = self.sweep(self.mark_set())
         return 'g ;' + ''.join(f' {x}' for x in order)
+    def mark_abort(self, ids):
+        """a mark phase left by an exception after the anchor reported `ids`"""
+        self.cov['mark_aborts'] += 1
+        self.stale = {y for x in list(ids) + [r for r, f in self.reg.items() if f] for y in self.tree(x) if y in self.reg}
+        return 'm' + ''.join(f' {x}' for x in ids)
+    def declare_nulldel(self, oid):
+        self.nulldel.add(oid)
+        return f'z {oid}'
+    def del_null(self):
+        self.gc_rem_null()
+        return 'N'
     def hold(self, ids):
         self.held = list(ids)
         return 'k' + ''.join(f' {x}' for x in ids)
@@ -252,7 +277,7 @@ class Sim:
         order = self.sweep(set())
         return 'e ;' + ''.join(f' {x}' for x in order)
 
-def gen_history(rng, primes, nops, mode=None, ordered=None, stops=False, nslots_used=None, chain_bias=0.35, maxlive=120, keep=0.7, qprob=0.0):
+def gen_history(rng, primes, nops, mode=None, ordered=None, stops=False, nslots_used=None, chain_bias=0.35, maxlive=120, keep=0.7, qprob=0.0, zprob=0.15):
     """one history (list of op lines) + coverage.  qprob = share of leaf allocations whose destructor allocates"""
     mode = mode or ('thread' if rng.random() < 0.3 else 'main')
     ordered = (rng.random() < 0.65) if ordered is None else ordered
@@ -320,6 +345,8 @@ def gen_history(rng, primes, nops, mode=None, ordered=None, stops=False, nslots_
                     sl = take_slot()
                     if sl is not None: ch.append((fresh(), sl))
                 if ch: lines.append(sim.declare(oid, ch))
+            if kind in 'pqb' and rng.random() < zprob:
+                lines.append(sim.declare_nulldel(oid))          # its destructor will also do del(NULL)
             # the program keeps the new object (mostly); an owned object is from now on reached through its owner
             kept = [h for h in sim.held if h != owned]
             if how == 'w' or rng.random() < keep: kept.append(oid)
@@ -377,6 +404,19 @@ def gen_history(rng, primes, nops, mode=None, ordered=None, stops=False, nslots_
         elif stops and r < 0.96:
             if sim.running: sim.running = False; lines.append('s')
             else: sim.running = True; lines.append('t')
+        elif r < 0.975:
+            # a mark phase that an exception leaves: the anchor reports some of the held objects, then throws; the bits stay
+            # set.  Often the program then drops what was marked: garbage with a stale mark bit (fix d8f0c4f)
+            if 0 not in sim.reg: continue
+            cand = [x for x in sim.held if x in sim.live]
+            ids = [x for x in cand if rng.random() < 0.6]
+            lines.append(sim.mark_abort(ids))
+            if ids and rng.random() < 0.7:
+                gone = [x for x in ids if sim.how[x] != 'w' and rng.random() < 0.7]
+                if not sim.running: gone = [x for x in gone if not tree_has(x, lambda y: sim.how[y] == 'r')]
+                set_held([h for h in sim.held if h not in gone])
+        else:
+            lines.append(sim.del_null())
     # the program's obligations before teardown: collector running, roots and raws deleted
     if not sim.running: sim.running = True; lines.append('t')
     for x in sorted(tops()):
@@ -392,7 +432,7 @@ def gen_history(rng, primes, nops, mode=None, ordered=None, stops=False, nslots_
     # released arena slots are reused only across histories: a history never reuses an address it has used
     return lines, sim.cov, sim
 
-def chain_history(rng, primes, depth, slots, how_top='s', via='c', mode='main'):
+def chain_history(rng, primes, depth, slots, how_top='s', via='c', mode='main', zprob=0.0, abort=False):
     """Box -> Box -> ... -> probe of the given depth at the given arena slots, dropped and reclaimed through `via`"""
     sim = Sim(True, primes)
     lines = [f'H {mode} ord']
@@ -402,9 +442,12 @@ def chain_history(rng, primes, depth, slots, how_top='s', via='c', mode='main'):
         oid = d + 1
         how = how_top if d == depth - 1 else 's'
         lines.append(sim.new(oid, 'p' if d == 0 else 'b', how, slots[d + 1], prev))
+        if rng.random() < zprob: lines.append(sim.declare_nulldel(oid))
         lines.append(sim.hold([oid] ))
         prev = oid
     top = depth
+    if abort: lines.append(sim.mark_abort([top]))      # the whole chain is marked when the mark phase is abandoned
+    if zprob and rng.random() < 0.5: lines.append(sim.del_null())
     if via == 'c':
         lines.append(sim.hold([])); lines.append(sim.collect(sim.protected_marks()))
     elif via == 'g':
@@ -419,7 +462,7 @@ def chain_history(rng, primes, depth, slots, how_top='s', via='c', mode='main'):
     lines.append(sim.teardown())
     return lines, sim.cov, sim
 
-def ring_history(rng, primes, n, slots, hows, via='c', mode='main', ordered=True, kinds=None):
+def ring_history(rng, primes, n, slots, hows, via='c', mode='main', ordered=True, kinds=None, zprob=0.0, abort=False):
     """a ring of n boxes (n = 1: a box owning itself) at the given arena slots, reclaimed through `via`:
     c = forced collection, g = real mark phase, e = teardown, d = the program deletes one member"""
     sim = Sim(ordered, primes)
@@ -430,10 +473,12 @@ def ring_history(rng, primes, n, slots, hows, via='c', mode='main', ordered=True
         oid = i + 1
         k = (kinds[i] if kinds else 'b')
         lines.append(sim.new(oid, k, hows[i], slots[i + 1] if k != 'B' else 0, prev))
+        if k != 'B' and rng.random() < zprob: lines.append(sim.declare_nulldel(oid))
         lines.append(sim.hold([oid]))
         prev = oid
     lines.append(sim.own(1, n))                  # close the ring: 1 -> n -> n-1 -> ... -> 1
     lines.append(sim.hold([1]))
+    if abort: lines.append(sim.mark_abort([1]))
     if via == 'c':
         lines.append(sim.hold([])); lines.append(sim.collect(sim.protected_marks()))
     elif via == 'g':
@@ -476,8 +521,43 @@ def nested_history(rng, primes, nheld, nchild, mode='main', how='s', via='d'):
     lines.append(sim.teardown())
     return lines, sim.cov, sim
 
+def stale_history(rng, primes, ntops, slots, via='e', mode='main', ordered=True):
+    """`ntops` unowned leaves / small chains are held while a mark phase marks them and is left by an exception; the program
+    drops some of them; they are reclaimed through `via`: e = teardown (GC_Del), g = the next real collection, n = the
+    threshold collection of a later registration, c = forced sweep, d = explicit del.  Before fix d8f0c4f the stale bits
+    kept them (g, n) or left them behind for good (e)."""
+    sim = Sim(ordered, primes)
+    lines = [f"H {mode} {'ord' if ordered else 'uno'}"]
+    sl = list(slots)
+    lines.append(sim.new(0, 'a', 'r', sl.pop(), None))
+    oid = 0; tops = []
+    for _ in range(ntops):
+        oid += 1; lines.append(sim.new(oid, 'p', 's', sl.pop(), None)); lines.append(sim.hold(tops + [oid]))
+        top = oid
+        if rng.random() < 0.4:
+            oid += 1; lines.append(sim.new(oid, 'b', 's', sl.pop(), top)); top = oid
+        tops.append(top); lines.append(sim.hold(list(tops)))
+    lines.append(sim.mark_abort([t for t in tops if rng.random() < 0.8] or tops[:1]))
+    kept = [t for t in tops if rng.random() < 0.3]
+    lines.append(sim.hold(kept))
+    if via == 'g': lines.append(sim.gc())
+    elif via == 'c': lines.append(sim.collect(sim.protected_marks()))
+    elif via == 'd':
+        for t in tops:
+            if t not in kept: lines.append(sim.delete(t, 's'))
+    elif via == 'n':
+        for _ in range(rng.choice([1, 2, 4])):
+            if ordered and sim.running and len(sim.reg) + 1 > sim.mitems:
+                ms = sim.mark_set()
+                if any((not r) and x not in ms for x, r in sim.reg.items()): lines.append(sim.gc())
+            oid += 1; lines.append(sim.new(oid, 'p', 's', sl.pop(), None))
+    if rng.random() < 0.5: lines.append(sim.hold([]))
+    if rng.random() < 0.5: lines.append(sim.delete(0, 'r'))     # (the anchor may also stay: a root the program keeps)
+    lines.append(sim.teardown())
+    return lines, sim.cov, sim
+
 def _nontrivial(cov):
-    return cov['owner_first'] + cov['owned_first'] + cov['reg_path'] + cov['dtor_allocs'] > 0
+    return cov['owner_first'] + cov['owned_first'] + cov['reg_path'] + cov['dtor_allocs'] + cov['stale_swept'] + cov['null_dels_in_sweep'] > 0
 
 class C06(Spec):
     id = 'C06'; engine = 'life'; harness = 'h_life'; driver = 'drv_life'
@@ -487,16 +567,19 @@ class C06(Spec):
     technique = ('Lean 4 proof by induction over histories with a nested induction over destructor cascades — an exact-effect invariant for exactly-once, '
                  'a potential-object invariant (what is in no table never comes back; what enters has a fresh identity) for safety under nested collections — '
                  '(source-derived switches regenerated each run): model of '
-                 'GC_Set/GC_Rem/GC_Rem_Ptr/GC_Sweep/GC_Del/alloc_by/dealloc/del_by/Box_Del and of destructors that allocate (nested collections on the '
-                 'collector\'s one pending list) with ledger; differential check of the model against '
+                 'GC_Set/GC_Rem/GC_Rem_Ptr/GC_Sweep/GC_Del/GC_Unmark/alloc_by/dealloc/del_by/Box_Del, of destructors that allocate (nested collections on the '
+                 'collector\'s one pending list), of mark phases left by an exception (stale mark bits) and of del(NULL) from the program and from destructors, with ledger; differential check of the model against '
                  'the real collector (destructor ledger, pending list, registry) on generated histories')
     level_text = ('Theorem C06_no_double (+ C06_ledger_only_grows, C06_registered_inert): for EVERY well-formed history of new/new_root/new_raw, '
                   'alloc/alloc_root/alloc_raw, del/del_root/del_raw, dealloc_raw(destruct), ownership links, collections with any marked set and any '
-                  'slot order, stop/start, teardown and destructors that allocate (nested collections on the pending list of the sweep in progress '
-                  'included), the model of the collector never finalises or releases an object twice and never releases one that was not finalised. '
+                  'slot order, stop/start, teardown, destructors that allocate (nested collections on the pending list of the sweep in progress '
+                  'included), mark phases abandoned by an exception with any bits left set, and del(NULL) by the program or by destructors, the model of the collector never finalises or releases an object twice and never releases one that was not finalised. '
                   'Theorems C06_exactly_once(_alloc/_windows) / C06_collect_respects_marks: in the histories in which no destructor allocates, it '
                   'finalises and releases every object exactly once (collector running; roots and raws deleted by the program), '
                   'and never an object of the marked set of the collection (under the sole-ownership obligation). '
+                  'Theorems C06_teardown_ignores_abandoned_mark / C06_collection_ignores_abandoned_mark / C06_exactly_once_after_abandoned_mark (every history: stale mark bits '
+                  'change nothing) and C06_no_null_deref (every history, no hypothesis: the collector never runs dealloc(destruct(NULL))) cover the territories repaired by fixes '
+                  'd8f0c4f and d3e4e44; the code before each fix is an explicit OLD variant of the model, refuted on the former witnesses (C06_stale_marks_old_refuted, C06_del_null_old_refuted). '
                   'For histories with allocating destructors, and for dealloc of registered objects, the exactly-once statements are refuted on witnesses (known findings). '
                   'The model is tied to the real GC.c/Alloc.c/Pointer.c by running thousands of histories on both (event sequences, pending '
                   'lists, registry contents, mitems), in main and worker threads, with an independent ledger oracle and ASan.')
@@ -516,12 +599,18 @@ class C06(Spec):
             'teardown) under random address permutations (both pending orders); (c) ownership rings of 1 (a box owning itself), 2, 3, 5 boxes '
             'built with ref(), also closed at random inside (a), reclaimed by forced collection, real mark, teardown, or explicit del of one member; '
             '(d) an object whose destructor allocates 1..4 leaves deleted explicitly while 0..5 others are held (the registration inside the destructor '
-            'runs a collection when few objects are registered; harmless outside a sweep). non-trivial history = at least one destructor-issued del met '
-            'the pending list, the registry, or an already finalised object during a sweep, or a destructor allocated; distinct = distinct history text.')
-    trusted_base = ('translate/g_life.py (regex over GC_Rem_Ptr, GC_Sweep, GC_Set, GC_Rem, GC_Del, Cello_Exit, alloc_by, alloc*, dealloc*, del_by, Box_Del, Thread_Init_Run)',
+            'runs a collection when few objects are registered; harmless outside a sweep); (e) everywhere: 15% of the arena objects (half or all of them in a '
+            'third of the chains and rings) have destructors that also do del(NULL), del(NULL) by the program, and mark phases that an exception leaves (the anchor\'s Mark '
+            'instance reports some held objects and throws) after which the program often drops what was marked; (f) 1..5 held leaves/boxes marked by an abandoned '
+            'mark phase, dropped, and reclaimed by teardown, the next real collection, the threshold collection of later registrations, a forced sweep or explicit del. '
+            'non-trivial history = at least one destructor-issued del met '
+            'the pending list, the registry, or an already finalised object during a sweep, or a destructor allocated, or a sweep reclaimed an object whose '
+            'mark bit an abandoned mark phase had left set, or a destructor did del(NULL) while a cleared slot was on the pending list; distinct = distinct history text.')
+    trusted_base = ('translate/g_life.py (regex over GC_Rem_Ptr, GC_Sweep, GC_Set, GC_Rem, GC_Del, GC_Mark (prologue), GC_Unmark, Cello_Exit, alloc_by, alloc*, dealloc*, del_by, Box_Del, Thread_Init_Run)',
                     'harness/h_life.c + lean/Driver/Life.lean (correspondence is testing): ledger hooks in probe destructors / arena dealloc / --wrap=free',
                     'the registry layout (robin-hood table) is abstracted to a duplicate-free list; slot order is a quantified parameter (C17 covers the layout)',
-                    'the mark phase is a quantified parameter: any marked set (C01 covers marking)',
+                    'the mark phase is a quantified parameter: any marked set (C01 covers marking); the bits an abandoned mark phase leaves set are a quantified parameter too (Op.markAbort marks); '
+                    'in the OLD variant Cfg.staleMarks they persist until the next sweep (a rehash of the real table, which also clears them, is not modelled: the registry layout is abstract)',
                     'object identities are never reused within a history in the model (a C address is reused only after free)',
                     'the collector\'s own tables (entries, freelist) and the per-thread wrapper/TLS/Exception objects are not in the ledger model: covered by ASan and the block accounting of the harness only',
                     'one collector per theorem; a del issued by another thread is C13_foreign_del (Props/C13.lean)')
@@ -570,7 +659,8 @@ class C06(Spec):
                         window = rng.choice([depth + 2, 16, 64, 1000])
                         slots = rng.sample(range(window), depth + 1)
                         mode = 'thread' if rng.random() < 0.3 else 'main'
-                        lines, cov, _ = chain_history(rng, primes, depth, slots, how_top, via, mode)
+                        lines, cov, _ = chain_history(rng, primes, depth, slots, how_top, via, mode,
+                                                      zprob=rng.choice([0, 0, 0.5, 1.0]), abort=rng.random() < 0.25)
                         ch.append((lines, cov))
         for i in range(0, len(ch), 20):
             chunk = ch[i:i+20]
@@ -587,11 +677,25 @@ class C06(Spec):
                     mode = 'thread' if rng.random() < 0.35 else 'main'
                     ordered = rng.random() < 0.8
                     kinds = None if ordered else [rng.choice('bB') for _ in range(n)]
-                    lines, cov, _ = ring_history(rng, primes, n, slots, hows, via, mode, ordered, kinds)
+                    lines, cov, _ = ring_history(rng, primes, n, slots, hows, via, mode, ordered, kinds,
+                                                 zprob=rng.choice([0, 0, 0.5, 1.0]), abort=rng.random() < 0.25)
                     rg.append((lines, cov))
         for i in range(0, len(rg), 20):
             chunk = rg[i:i+20]
             cs.append(Case(f'ring{i//20}', [l for h, _ in chunk for l in h], meta={'hist': [(hash('\n'.join(h)), c) for h, c in chunk]}))
+        # mark phases left by an exception, the marked objects dropped afterwards, every way of reclaiming them (fix d8f0c4f)
+        sm = []
+        for via in 'egncd':
+            for ntops in (1, 2, 3, 5):
+                for _ in range((2 if quick else 30) * boost):
+                    window = rng.choice([2 * ntops + 8, 64, 1000])
+                    slots = rng.sample(range(window), 2 * ntops + 6)
+                    mode = 'thread' if rng.random() < 0.3 else 'main'
+                    lines, cov, _ = stale_history(rng, primes, ntops, slots, via, mode, ordered=rng.random() < 0.7)
+                    sm.append((lines, cov))
+        for i in range(0, len(sm), 20):
+            chunk = sm[i:i+20]
+            cs.append(Case(f'stale{i//20}', [l for h, _ in chunk for l in h], meta={'hist': [(hash('\n'.join(h)), c) for h, c in chunk]}))
         # allocating destructors run by an explicit deletion, with a collection started from inside the destructor
         nh = []
         for nheld in range(0, 6):
